@@ -76,6 +76,8 @@ def run(chk):
                     if len(ids) > 1:
                         gq = sorted((D.version_key(o) for o in st.query([Filter('id', 'in', sorted(ids))])), key=repr); wq = sorted(model.items, key=repr)
                         if gq != wq: return (f'{sname}#query == stored objects satisfying it', f'{[(labels[i], f) for i, f in hist]}: {sname}.query(id in all ids) = {gq}, list model {wq}', {})
+                        gq = sorted((D.version_key(o) for o in st.query([Filter('id', 'in', ','.join(sorted(ids)))])), key=repr)          # a plain string: substring test
+                        if gq != wq: return (f'{sname}#query == stored objects satisfying it', f'{[(labels[i], f) for i, f in hist]}: {sname}.query(id in "<ids joined by commas>") = {gq}, list model {wq}', {})
                     for oid in ids:
                         got_all = sorted((D.version_key(o) for o in st.all_versions(oid)), key=repr)
                         if got_all != model.all_versions(oid):
